@@ -49,7 +49,7 @@ func (c19) RequiredBuckets(tier string) []string {
 		}
 		out = append(out, op+"|true", op+"|false")
 	}
-	return append(out, "cli:select", "cli:select -v", "cli:select -s", "cli:select cache-on")
+	return append(out, "cli:select", "cli:select -v", "cli:select -s", "cli:select cache-on", "cli:select selector with outer blank")
 }
 
 func (c19) Findings() []fw.Finding {
